@@ -300,6 +300,7 @@ func TestTxPool(t *testing.T) {
 			}
 		}
 		text := func() string { return "txpool " + wiresText(ws) }
+		acct = newAccount(true)
 		p0, q0 := w.nd.TxPool.Stats()
 		r := guarded(func() { w.txR.AddPeer(peer) })
 		if oracle(t, evReporter(t), "txpool AddPeer", "alloc.txpool.addpeer", r, 0, w.probes, text) {
@@ -528,6 +529,7 @@ func TestEvidence(t *testing.T) {
 			}
 		}
 		text := func() string { return "evidence " + wiresText(ws) }
+		acct = newAccount(true)
 		n0 := w.nd.EvPool.Size()
 		ab, dropped := simpleRun(t, evReporter(t), "evidence", w.evR.Receive, peer, w.probes, ws, text)
 		if dropped {
@@ -660,6 +662,7 @@ func TestPex(t *testing.T) {
 			return fmt.Sprintf("pex seed=%v outbound=%v asked=%v %s", seed, peer.Outbound, asked, wiresText(ws))
 		}
 		rep := evReporter(t)
+		acct = newAccount(false)
 		r0 := guarded(func() {
 			r.AddPeer(peer)
 			if asked {
